@@ -199,7 +199,12 @@ def r_raise_inventory(ctx: Ctx, rule: str, classes: Optional[Set[str]] = None, e
                 ok = c == ("<", 1) or c == ("<=", 0)
         rep.ob(rule, "_map rejects exactly num_concurrent < 1", ok, func=f, construct=tests[0] if tests else "(no comparison of num_concurrent)")
     for f in (ctx.pool_setters("pool_size") if "size" in guards else []):
-        tests = ctx.nodes(f, lambda n: n.op == "test" and isinstance(n.ast, ast.Compare) and isinstance(n.ast.left, ast.Name) and n.ast.left.id in f.param_names())
+        def is_value_param(n: Node) -> bool:
+            # the setter's own parameter - also when the test sits in a helper (spliced in) that was handed the value
+            fr_, env_, leaf = ctx.vals.trace(n.func, n.env, n.ast.left)
+            return fr_ is f and not env_ and isinstance(leaf, ast.Name) and leaf.id in f.param_names()
+
+        tests = ctx.nodes(f, lambda n: n.op == "test" and isinstance(n.ast, ast.Compare) and isinstance(n.ast.left, ast.Name) and is_value_param(n))
         ok = None
         for t in tests:
             c = n_cmp(t.ast)
